@@ -1894,6 +1894,23 @@ func lockRootWrite(r *engine.Run, rule string) {
 				fn(f)+" takes the trie's lock but calls "+g.Name()+", which rewrites the root, outside it: the goroutine-safe entry point runs removals unlocked, and a concurrent insert loses weight updates and children")
 		})
 	}
+	// a method that rewrites the root under the trie's lock holds it in write mode
+	for _, f := range fns {
+		if len(f.Blocks) == 0 || recvNamed(f) != "WeightedMerkleTrie" || f.Parent() != nil || !writesRoot[f] {
+			continue
+		}
+		var rlock *ssa.Call
+		engine.Instrs(f, func(in ssa.Instruction) {
+			if c, ok := in.(*ssa.Call); ok {
+				if _, op, isLock := engine.LockOp(c); isLock && op == "RLock" {
+					rlock = c
+				}
+			}
+		})
+		if rlock != nil {
+			r.Fail(rule, fn(f)+"|writer under the read lock", r.P.Pos(rlock.Pos()), fn(f)+" rewrites the root while it holds the trie's lock in read mode only: concurrent writers run together, weight updates and child slots are lost, and the branch weights stop being the sums of their children - honest proofs no longer verify to the trie's root")
+		}
+	}
 	if n < 2 {
 		r.Anchor(rule, fmt.Errorf("unresolved anchor: %d locking methods of the weighted trie", n))
 	}
